@@ -6,6 +6,14 @@ from mc import core, roundtrip as rt
 from mc.core import site
 
 
+# written from the three style guides, not imported from doctrans
+SECTION_TOKENS = {
+    "rest": (":param", ":type", ":return", ":rtype"),
+    "numpydoc": ("Parameters\n----------", "Returns\n-------"),
+    "google": ("Args:", "Returns:"),
+}
+
+
 class C01(core.Check):
     id = "C01"
     level = "exploration"
@@ -43,8 +51,7 @@ class C01(core.Check):
             return [site(False, dict(cf, field="parse"), fail="parse_raise", **core.exc_obs(e))], nontrivial, "parse-raise"
         sites = [site(True, dict(cf, field="parse"))]
         seen = spy.styles()
-        has_section = bool(atoms or ret is not None or case["kwargs"])
-        if has_section:
+        if any(tok in text for tok in SECTION_TOKENS[style]):
             sites.append(site(seen == [style], dict(cf, field="style"), fail="style_misread", got=seen))
         _, _, ir0 = al.case_ir(case)
         sites += rt.compare(base, atoms, ret, case, ir0, back, {"check_default": edd})
